@@ -12,6 +12,13 @@ pub struct SchedCase {
     pub seed_state: u8,
     pub program: Vec<Vec<Op>>,
     pub schedule: Vec<usize>,
+    /// calls go through the Vfs enum wrapper around the instance
+    #[serde(default)]
+    pub via_vfs: bool,
+    /// the program contains a composite call (a write handle's open .. write .. drop): no sequential
+    /// equivalence is claimed for it, only no panic / no dead-lock / integrity at quiescence
+    #[serde(default)]
+    pub no_lin: bool,
 }
 
 pub fn seed_state(id: u8) -> Memfs {
@@ -172,7 +179,7 @@ impl ProgCtx {
 }
 
 /// Judge one controlled execution
-pub fn judge_execution(pc: &mut ProgCtx, e: &Execution, mem: &Memfs) -> CaseResult {
+pub fn judge_execution(pc: &mut ProgCtx, e: &Execution, mem: &Memfs, no_lin: bool) -> CaseResult {
     let names: Vec<&str> = pc.program.iter().flatten().map(|o| o.name()).collect();
     let mut sorted_names = names.clone();
     sorted_names.sort();
@@ -215,6 +222,9 @@ pub fn judge_execution(pc: &mut ProgCtx, e: &Execution, mem: &Memfs) -> CaseResu
                 }
             }
         }
+    }
+    if no_lin {
+        return Ok(());
     }
     // linearizability: some program-order + real-time respecting sequential order explains results and final state
     let got: HashMap<(usize, usize), Out> = e.calls.iter().map(|c| ((c.thread, c.index), norm(&c.out))).collect();
@@ -263,14 +273,18 @@ pub fn judge_execution(pc: &mut ProgCtx, e: &Execution, mem: &Memfs) -> CaseResu
 }
 
 /// Explore all schedules (up to `cap`) of one program; returns number of executions
-pub fn explore(c: &Ctx, seed: u8, program: Vec<Vec<Op>>, cap: usize) -> usize {
+pub fn explore(c: &Ctx, seed: u8, program: Vec<Vec<Op>>, cap: usize, via_vfs: bool, no_lin: bool) -> usize {
     let mut pc = ProgCtx::new(seed, program);
     let mut prefix: Vec<usize> = vec![];
     let mut n = 0;
     loop {
-        let mem = seed_state(seed);
-        mark("sched", &serde_json::to_string(&json!({"seed_state": seed, "program": pc.program, "schedule": prefix})).unwrap());
-        let e = run_controlled(&mem, &pc.program, &prefix);
+        let holder = Vfs::Memfs(seed_state(seed));
+        let mem = match &holder {
+            Vfs::Memfs(m) => m,
+            _ => unreachable!(),
+        };
+        mark("sched", &serde_json::to_string(&json!({"seed_state": seed, "program": pc.program, "schedule": prefix, "via_vfs": via_vfs, "no_lin": no_lin})).unwrap());
+        let e = if via_vfs { run_controlled(&holder, &pc.program, &prefix) } else { run_controlled(mem, &pc.program, &prefix) };
         n += 1;
         c.eval(1);
         // non-trivial: two calls of different threads overlap in time and one of them mutates
@@ -279,9 +293,12 @@ pub fn explore(c: &Ctx, seed: u8, program: Vec<Vec<Op>>, cap: usize) -> usize {
             c.nontrivial(fp(&(format!("{:?}", pc.program), seed, &e.schedule)));
             c.class("execution:calls-of-different-threads-overlap");
         }
-        let case = SchedCase { seed_state: seed, program: pc.program.clone(), schedule: e.schedule.clone() };
+        let case = SchedCase { seed_state: seed, program: pc.program.clone(), schedule: e.schedule.clone(), via_vfs, no_lin };
         c.sample(|| json!({"kind":"sched","case":case}));
-        let r = judge_execution(&mut pc, &e, &mem);
+        if via_vfs {
+            c.class("execution:through-Vfs-wrapper");
+        }
+        let r = judge_execution(&mut pc, &e, mem, no_lin);
         let passed = c.judge("sched", &case, r);
         if !passed {
             break;
@@ -379,26 +396,26 @@ fn stress(c: &Ctx, threads: usize, rounds: usize) {
 }
 
 pub fn run(c: &Ctx) {
-    c.set_rule("controlled scheduler on hook H1: real threads park before every MemfsGuard acquisition and exactly one is released at a time, so an execution is a function of (seed state, program, schedule). For every program ALL interleavings at critical-section granularity are enumerated depth-first (cap per program noted). Programs: quick = all 2-thread programs with (1,1) calls over a 15-form core alphabet and a seeded quarter of the (2,1) programs from a populated seed state, all 448 'two mutators of one directory vs one listing/reader' programs, and all (1,1) programs over the full 43-form alphabet from two more seed states (nested dirs + link; cwd below root); thorough = all (1,1),(2,1) over the 43-form alphabet, seeded samples of (2,2),(1,1,1),(2,1,1), four seed states, plus (both tiers) every rich call form of the VFS trait on every path of a seed state as a one-thread program (guard discipline: nesting is a property of the call alone) and every listed single-step call form on every path of that state racing each of 8 mutators (quick: a seeded half), plus uncontrolled 8-thread stress rounds. Oracle per execution: no nested guard acquisition (would dead-lock), no panic, every call returns, C03 invariants at quiescence, every successful append_all payload exactly once, and linearizability: per-call results (Ok values; Err-ness) and the final tree equal those of SOME sequential order of the same calls on a fresh instance that respects program order and real-time precedence. Non-trivial = execution in which calls of different threads overlap in time and one mutates; distinct by (seed, program, schedule).");
+    c.set_rule("controlled scheduler on hook H1: real threads park before every MemfsGuard acquisition and exactly one is released at a time, so an execution is a function of (seed state, program, schedule). For every program ALL interleavings at critical-section granularity are enumerated depth-first (cap per program noted). Programs: quick = all 2-thread programs with (1,1) calls over a 15-form core alphabet and a seeded quarter of the (2,1) programs from a populated seed state, all 448 'two mutators of one directory vs one listing/reader' programs, and all (1,1) programs over the full 43-form alphabet from two more seed states (nested dirs + link; cwd below root); thorough = all (1,1),(2,1) over the 43-form alphabet, seeded samples of (2,2),(1,1,1),(2,1,1), four seed states, plus (both tiers) every rich call form of the VFS trait on every path of a seed state as a one-thread program (guard discipline: nesting is a property of the call alone) and every listed single-step call form on every path of that state racing each of 8 mutators (quick: a seeded half), plus 147 programs 'write/append handle session vs two calls that remove / replace its file' (no sequential equivalence claimed for the composite: no panic, no poisoned lock, no dead-lock, integrity); about half of all programs run through the Vfs enum wrapper instead of the Memfs value; plus uncontrolled 8-thread stress rounds. Oracle per execution: no nested guard acquisition (would dead-lock), no panic, every call returns, C03 invariants at quiescence, every successful append_all payload exactly once, and linearizability: per-call results (Ok values; Err-ness) and the final tree equal those of SOME sequential order of the same calls on a fresh instance that respects program order and real-time precedence. Non-trivial = execution in which calls of different threads overlap in time and one mutates; distinct by (seed, program, schedule).");
     c.assume("all shared state of Memfs is behind the one RwLock (safe Rust): interleavings at guard granularity are complete; sequential specification = Memfs itself run single-threaded (functional correctness is C01's job)");
     install_hook();
     let quick = c.tier == Tier::Quick;
     let core = alphabet(false);
     let full = alphabet(true);
     let cap = c.tier.pick(400, 5000);
-    let mut jobs: Vec<(u8, Vec<Vec<Op>>)> = vec![];
+    let mut jobs: Vec<(u8, Vec<Vec<Op>>, bool, bool)> = vec![];
     if quick {
         for p in programs(&core, &[1, 1]) {
-            jobs.push((1, p));
+            jobs.push((1, p, false, false));
         }
         for (i, p) in programs(&core, &[2, 1]).into_iter().enumerate() {
             if sampled(c.seed, 41, i as u64, 1, 4) {
-                jobs.push((1, p));
+                jobs.push((1, p, false, false));
             }
         }
         for p in programs(&full, &[1, 1]) {
-            jobs.push((2, p.clone()));
-            jobs.push((3, p));
+            jobs.push((2, p.clone(), false, false));
+            jobs.push((3, p, true, false)); // through the Vfs enum wrapper
         }
         // a listing / reader racing two mutators of the same directory (snapshots must be atomic)
         let mutators = vec![
@@ -415,34 +432,34 @@ pub fn run(c: &Ctx) {
         for m1 in &mutators {
             for m2 in &mutators {
                 for r in &readers {
-                    jobs.push((1, vec![vec![m1.clone(), m2.clone()], vec![r.clone()]]));
+                    jobs.push((1, vec![vec![m1.clone(), m2.clone()], vec![r.clone()]], false, false));
                 }
             }
         }
     } else {
         for seed in [0u8, 1, 2, 3] {
             for p in programs(&full, &[1, 1]) {
-                jobs.push((seed, p));
+                jobs.push((seed, p, seed % 2 == 1, false));
             }
         }
         for (i, p) in programs(&full, &[2, 1]).into_iter().enumerate() {
             if sampled(c.seed, 46, i as u64, 1, 4) {
-                jobs.push(((i % 3) as u8 + 1, p));
+                jobs.push(((i % 3) as u8 + 1, p, false, false));
             }
         }
         for (i, p) in programs(&core, &[2, 2]).into_iter().enumerate() {
             if sampled(c.seed, 43, i as u64, 1, 10) {
-                jobs.push((1, p));
+                jobs.push((1, p, false, false));
             }
         }
         for (i, p) in programs(&core, &[1, 1, 1]).into_iter().enumerate() {
             if sampled(c.seed, 44, i as u64, 1, 2) {
-                jobs.push((1, p));
+                jobs.push((1, p, false, false));
             }
         }
         for (i, p) in programs(&core, &[2, 1, 1]).into_iter().enumerate() {
             if sampled(c.seed, 45, i as u64, 1, 40) {
-                jobs.push((1, p));
+                jobs.push((1, p, false, false));
             }
         }
     }
@@ -454,20 +471,20 @@ pub fn run(c: &Ctx) {
     let mut disc = 0u64;
     for p in disc_paths {
         for op in crate::fsalpha::single_path_ops(p, true) {
-            jobs.push((2, vec![vec![op]]));
+            jobs.push((2, vec![vec![op]], false, false));
             disc += 1;
         }
     }
     for a in disc_paths.iter().take(9) {
         for b in disc_paths.iter().take(10) {
             for op in crate::fsalpha::two_path_ops(a, b, true) {
-                jobs.push((2, vec![vec![op]]));
+                jobs.push((2, vec![vec![op]], false, false));
                 disc += 1;
             }
         }
     }
     for op in crate::fsalpha::nullary_ops() {
-        jobs.push((2, vec![vec![op]]));
+        jobs.push((2, vec![vec![op]], false, false));
         disc += 1;
     }
     c.note("guard_discipline_single_call_programs", disc);
@@ -501,16 +518,43 @@ pub fn run(c: &Ctx) {
             }
             let mut p = vec![vec![f.clone()], vec![r.clone()]];
             tag_appends(&mut p);
-            jobs.push((2, p));
+            jobs.push((2, p, (i + j) % 2 == 1, false));
             race += 1;
         }
     }
     c.note("call_form_vs_racer_programs", race);
+    // a write / append handle session (open .. write .. flush .. drop inside one thread) racing two mutators
+    // of its file: no sequential equivalence is claimed for the composite, but nothing may panic, poison the
+    // lock, dead-lock or break the tree
+    let sessions = vec![
+        Op::WriteH(s("/a/f"), vec![b"h1".to_vec(), b"h2".to_vec()], vec![true, false]),
+        Op::AppendH(s("/a/f"), vec![b"h3".to_vec()], vec![false]),
+        Op::WriteH(s("/a/new"), vec![b"n".to_vec()], vec![true]),
+    ];
+    let replacers = vec![
+        Op::Remove(s("/a/f")),
+        Op::RemoveAll(s("/a")),
+        Op::MkdirP(s("/a/f")),
+        Op::Symlink(s("/a/f"), s("/d")),
+        Op::MoveP(s("/a/f"), s("/g")),
+        Op::MkdirP(s("/a/new")),
+        Op::Mkfile(s("/a/f")),
+    ];
+    let mut sess = 0u64;
+    for h in &sessions {
+        for (i, m1) in replacers.iter().enumerate() {
+            for (j, m2) in replacers.iter().enumerate() {
+                jobs.push((2, vec![vec![h.clone()], vec![m1.clone(), m2.clone()]], (i + j) % 2 == 1, true));
+                sess += 1;
+            }
+        }
+    }
+    c.note("handle_session_vs_replacers_programs", sess);
     c.note("programs", jobs.len());
     let execs = std::sync::atomic::AtomicU64::new(0);
     par_for(jobs.len() as u64, 4, |i| {
-        let (seed, p) = &jobs[i as usize];
-        let n = explore(c, *seed, p.clone(), cap);
+        let (seed, p, via_vfs, no_lin) = &jobs[i as usize];
+        let n = explore(c, *seed, p.clone(), cap, *via_vfs, *no_lin);
         execs.fetch_add(n as u64, std::sync::atomic::Ordering::Relaxed);
     });
     c.note("controlled_executions", execs.load(std::sync::atomic::Ordering::Relaxed));
@@ -525,9 +569,13 @@ pub fn replay(kind: &str, case: &Value) -> Option<CaseResult> {
             install_hook();
             let sc: SchedCase = serde_json::from_value(case.clone()).ok()?;
             let mut pc = ProgCtx::new(sc.seed_state, sc.program.clone());
-            let mem = seed_state(sc.seed_state);
-            let e = run_controlled(&mem, &sc.program, &sc.schedule);
-            Some(judge_execution(&mut pc, &e, &mem))
+            let holder = Vfs::Memfs(seed_state(sc.seed_state));
+            let mem = match &holder {
+                Vfs::Memfs(m) => m,
+                _ => unreachable!(),
+            };
+            let e = if sc.via_vfs { run_controlled(&holder, &sc.program, &sc.schedule) } else { run_controlled(mem, &sc.program, &sc.schedule) };
+            Some(judge_execution(&mut pc, &e, mem, sc.no_lin))
         },
         _ => None,
     }
